@@ -389,19 +389,3 @@ Lemma polynomial_closed_6 a0 a1 a2 a3 a4 a5 a6 x sx sy dx : sx > 0 -> sy > 0 -> 
          (poly_sum (physc 0 [a0; a1; a2; a3; a4; a5; a6] sy sx) (x * sx)) sy dmy DF64.
 Proof using Hdmx Hdmy. intros; poly_tac. Qed.
 End T.
-
-(* ---------------------------------------------------------------- the leaves do not read
-   self._prefix: hypothesis of Verif.C16.ProofsModel.prefix_irrelevant, for ANY arithmetic *)
-Section Leaves.
-Variable O : Fops.
-Context {X : Xops O}.
-Definition gen_leaf (k : kind) (self x params : val O) : val O :=
-  match k with
-  | KGauss => GaussianModel__call O self x params
-  | KLorentz => LorentzianModel__call O self x params
-  | KPVoigt => PseudoVoigtModel__call O self x params
-  | KPoly _ => PolynomialModel__call O self x params
-  end.
-Lemma gen_leaf_prefix_indep k p q x d : gen_leaf k (self_of O k p) x d = gen_leaf k (self_of O k q) x d.
-Proof using. destruct k; reflexivity. Qed.
-End Leaves.
